@@ -341,7 +341,16 @@ fn w_roundtrip(ctx: &mut Ctx) {
             }
         }
         // (3) a settings argument at load time overrides the stored one
-        let st2 = perturbed_settings(&mut rng);
+        let mut st2 = perturbed_settings(&mut rng);
+        // one argument in six carries the largest finite time limit - the very value an infinite limit is stored as in
+        // a file: an argument is used as given, only STORED settings are translated back (side stream of draws)
+        {
+            let mut r2 = Rng::for_case(ctx.seed, "C19/override_time_limit_max", case);
+            if r2.bool(0.17) {
+                st2.time_limit = f64::MAX;
+                ctx.bump("settings_arguments_with_time_limit_f64_max");
+            }
+        }
         match load_bytes(&bytes, Some(st2.clone())) {
             Ok(Ok(l2)) => {
                 if let Some(d) = settings_diff(&st2, &l2.settings) {
